@@ -112,6 +112,8 @@ fn through_serde<T: serde::Serialize + serde::de::DeserializeOwned>(v: &T) -> Ve
     out.push(("JSON", json::<T, T>(v)));
     out.push(("JSON value", serde_json::to_value(v).map_err(|e| format!("serialisation failed: {}", e)).and_then(|b| serde_json::from_value::<T>(b).map_err(|e| format!("deserialisation failed: {}", e)))));
     out.push(("CBOR", cbor::<T, T>(v)));
+    // a positional format (bincode / postcard style: no field names, see posfmt.rs)
+    out.push(("a positional format without field names", crate::posfmt::to_tokens(v).map_err(|e| format!("serialisation failed: {}", e)).and_then(|t| crate::posfmt::from_tokens::<T>(&t).map_err(|e| format!("deserialisation failed: {}", e)))));
     // the remaining routes for one value in four (chosen by the value itself)
     let sel = serde_json::to_vec(v).map(|b| b.iter().fold(b.len() as u64, |h, x| h.wrapping_mul(31).wrapping_add(*x as u64))).unwrap_or(0);
     if sel % 4 != 0 {
